@@ -53,3 +53,7 @@ Check (C14_reject :
   forall (cast_f32 : f64 -> f64) t,
   (forall v, improper_or_wrong v -> de cast_f32 (TySeq t) v = SErr SData) /\
   (forall a xs tl, is_cons tl = false -> is_null tl = false -> improper_or_wrong (Cons a (build xs tl)))).
+
+Check (C14_reject_tuple :
+  forall (cast_f32 : f64 -> f64) ts v,
+  improper_or_wrong v -> de cast_f32 (TyTuple ts) v = SErr SData).
